@@ -6,6 +6,8 @@ import (
 	"math/big"
 	"sort"
 	"strings"
+
+	"golang.org/x/tools/go/ssa"
 )
 
 // Env is the environment in which a contract expression is evaluated.
@@ -92,6 +94,16 @@ func (env *Env) eval(e Expr) *SV {
 			return ghostBool("false")
 		case "nil":
 			return &SV{C: []string{bvLit(tidBits, 0)}, Exact: true, Sort: STid}
+		}
+		if env.pkg != nil {
+			if obj, ok := env.pkg.Scope().Lookup(e.Name).(*types.Var); ok {
+				if sp := vc.eng.pkgs[env.pkg.Path()]; sp != nil {
+					if g, ok := sp.Members[e.Name].(*ssa.Global); ok {
+						_ = obj
+						return vc.loadPure(env.st, vc.globalPtr(g), obj.Type())
+					}
+				}
+			}
 		}
 		if sf, ok := vc.eng.spec.funcs[e.Name]; ok && len(sf.args) == 0 {
 			vc.eng.useSpec(vc, e.Name)
@@ -598,6 +610,37 @@ func (env *Env) evalCall(e CallE) *SV {
 		// the object was allocated after the old state
 		need(1)
 		return ghostBool(app("bvuge", arg(0).C[0], env.old.H["next"]))
+	case "bytes20", "bytes16", "bytes8", "bytes4":
+		// the first N bytes of a byte slice as one big-endian bit-vector
+		need(1)
+		x := arg(0)
+		nb := map[string]int{"bytes20": 20, "bytes16": 16, "bytes8": 8, "bytes4": 4}[e.Fn]
+		if x.T == nil || !isByteSlice(x.T) {
+			env.fail("%s needs a byte slice", e.Fn)
+		}
+		var parts []string
+		for k := 0; k < nb; k++ {
+			parts = append(parts, sel2(env.st.H["H8"], x.C[0], cellIdx(x.C[1], k)))
+		}
+		return &SV{Sort: bvSort(nb * 8), Signed: false, C: []string{app("concat", parts...)}}
+	case "rsa_ok":
+		need(0)
+		if vc.lastRSA == nil {
+			env.fail("rsa_ok(): no rsa.VerifyPKCS1v15 call was executed")
+		}
+		return ghostBool(vc.lastRSA.ok)
+	case "rsa_sig":
+		need(0)
+		if vc.lastRSA == nil {
+			env.fail("rsa_sig(): no rsa.VerifyPKCS1v15 call was executed")
+		}
+		return vc.lastRSA.sig
+	case "rsa_key":
+		need(0)
+		if vc.lastRSA == nil {
+			env.fail("rsa_key(): no rsa.VerifyPKCS1v15 call was executed")
+		}
+		return vc.lastRSA.key
 	case "isnil":
 		need(1)
 		x := arg(0)
